@@ -88,6 +88,10 @@ def variants(prog, rng):
         yield 'trailing-whitespace', '\n'.join(line + rng.choice(['  ', '\t', ' \t ']) for line in canonical.split('\n'))
     if not any(isinstance(st, gen.Block) for st in prog.stmts):     # (the inside of a fenced block is verbatim code: left alone)
         yield 'form-feeds-and-final-comment', canonical.replace('\n', '\n\x0c\n') + '\n# the end'
+        # every line boundary Python's str.splitlines() knows ends a statement: old-Macintosh \r, a page break glued to the
+        # next statement, NEL, the Unicode line / paragraph separators, vertical tab, file / group / record separators
+        sep = rng.choice(['\r', '\n\x0c', '\x85', '\u2028', '\u2029', '\x0b', '\x1c', '\x1d', '\x1e', '\x0c'])
+        yield 'other-line-boundaries', canonical.replace('\n', sep)
     else:
         yield 'final-comment-no-newline', canonical + '\n# the end'
     yield 'bare-condition', gen.render_program(prog, L(rng, noise=0.0, bare_p=1.0))
